@@ -208,7 +208,7 @@ Writer ==
      \/ /\ Ev.site = "notify"
         /\ LET p == pend[Ev.role] IN WNotifySet(p.stream, p.base..(p.base + Len(p.vals) - 1))
         /\ KeepCv
-     \/ /\ \/ Ev.site \in {"entry.write", "entry.drop", "bucket.alloc", "bucket.dealloc"}
+     \/ /\ \/ Ev.site \in {"notify.done", "entry.write", "entry.drop", "bucket.alloc", "bucket.dealloc"}
            \/ (Ev.site = "atomic" /\ Ev.loc = "bucket")
         /\ UNCHANGED vars /\ KeepCv
   /\ Adv
@@ -242,7 +242,10 @@ PoolAtomic ==
            \/ /\ wk.pc = "scan" /\ pscan[Ev.role] >= 0 /\ ScanItem(pscan[Ev.role])
               /\ pscan' = [pscan EXCEPT ![Ev.role] = -1] /\ UNCHANGED <<hdr, pend, rend, cnt, expect, seen, uicall, mode, cstat>>
            \/ /\ wk.pc = "sort" /\ UNCHANGED vars /\ KeepCv
-     \/ /\ Ev.loc = "should_notify" /\ Ev.op = "load" /\ (Ev.val = 1) = shouldNotify /\ NRead /\ KeepCv
+     \/ /\ Ev.loc = "should_notify" /\ Ev.op = "load" /\ (Ev.val = 1) = shouldNotify /\ NRead
+        \* a closure that saw the flag owes a notification before it ends (pscan = -2)
+        /\ pscan' = [pscan EXCEPT ![Ev.role] = IF shouldNotify THEN -2 ELSE -1]
+        /\ UNCHANGED <<hdr, pend, rend, cnt, expect, seen, uicall, mode, cstat>>
   /\ Adv
 
 \* the placeholder positions the finished parallel region has admitted: the smallest wk.rok of them
@@ -268,12 +271,13 @@ PoolHook ==
         /\ IF rend = Ev.role THEN wk.pc = "end" /\ Ev.a[1] = B2N(wk.fin) /\ RunEnd
            ELSE UNCHANGED vars            \* the model has taken this unlock already: an acquisition was recorded first
         /\ rend' = (IF rend = Ev.role THEN "" ELSE rend) /\ UNCHANGED <<hdr, pend, pscan, cnt, expect, seen, uicall, mode, cstat>>
-     \/ /\ Ev.site = "notify" /\ Notify /\ KeepCv
+     \/ /\ Ev.site = "notify" /\ pscan[Ev.role] = -2 /\ Notify
+        /\ pscan' = [pscan EXCEPT ![Ev.role] = -1] /\ UNCHANGED <<hdr, pend, rend, cnt, expect, seen, uicall, mode, cstat>>
      \/ /\ Ev.site = "run.end" /\ wk.pc = "end" /\ rend = ""
         /\ Ev.a[1] = B2N(w.wasCanceled) /\ Ev.a[2] = w.last /\ Ev.a[3] = Len(w.inflight) /\ Ev.a[4] = Len(w.matches)
         /\ rend' = Ev.role /\ UNCHANGED vars /\ UNCHANGED <<hdr, pend, pscan, cnt, expect, seen, uicall, mode, cstat>>
-     \/ /\ Ev.site = "run.done" /\ UNCHANGED vars /\ KeepCv
-     \/ /\ Ev.site \in {"run.scan_item", "run.remove_in_flight", "matcher.use", "entry.read", "par.sort", "entry.drop", "bucket.dealloc"}
+     \/ /\ Ev.site = "run.done" /\ pscan[Ev.role] = -1 /\ UNCHANGED vars /\ KeepCv
+     \/ /\ Ev.site \in {"notify.done", "run.scan_item", "run.remove_in_flight", "matcher.use", "entry.read", "par.sort", "entry.drop", "bucket.dealloc"}
         /\ UNCHANGED vars /\ KeepCv
   /\ Adv
 
